@@ -125,6 +125,10 @@ show_cst (constant const &c)
       snprintf (buf, sizeof buf, "%p", (void const *) me);
       r += std::string (",\"ar\":") + (c.dom ()->safe_arith () ? "true" : "false")
 	+ ",\"k\":" + jstr (std::string (me->name ()) + "@" + buf);
+      // the domain's own brief rendering (what a constant looks like inside a sequence)
+      std::stringstream bs;
+      c.dom ()->show (c.value (), bs, brevity::brief);
+      r += ",\"brief\":" + jstr (bs.str ());
     }
   return r;
 }
